@@ -153,7 +153,8 @@ def check_cache_regions(P, ctx):
     for (up, lo, hi) in found:
         fns = [f for f in P.units[up]['functions'].values() if f['line'] <= hi and (f.get('end') or f['line']) >= lo]
         names = sorted(f['name'] for f in fns)
-        ok = up == 'src/Type.c' and names == ['Type_Instance']
+        # (a region that holds only a helper spliced back into the dispatcher has no function of its own left)
+        ok = up == 'src/Type.c' and names in (['Type_Instance'], [])
         ctx.check(ok, rule, '%s:%s' % (up, ','.join(names) or '%d-%d' % (lo, hi)), '%s:%d-%d' % (up, lo, hi),
                   'code compiled only with the method cache lives in the dispatcher (Type_Instance) alone, where each entry is checked against the scan (C08.cache-wiring); '
                   'cache slots read elsewhere bypass that agreement')
